@@ -15,6 +15,28 @@ definitions (`bilinearPoly`, `bicubicPoly`, `cellOf`, `cellXY`, `containing`, `f
 `applyShift`, `ntv2_2dOf`) are the ones the driver executes at `Float`; here they are instantiated
 at a field `K` / at `ℚ` (`qops`). The node addressing (`readBilinearNodes`, `readBicubicNodes`) is
 integer/byte arithmetic and is proved about the executed definitions themselves.
+
+1. bilinear: `bilinear_blend`, `bilinear_at_node`, `bilinear_reproduces_linear`,
+   `bilinear_reproduces_bilinear`, `bilinear_not_biquadratic` (why the fall-back cannot serve the
+   bi-quadratic clause in the outer ring)
+2. bicubic: `bicubic_at_node`, `bicubic_reproduces_biquadratic`, `bicubic_reproduces_linear`,
+   `cinv_mul_hermite`, `hermite_mul_cinv`, `bicubic_hermite`
+3. sub-grid choice: `finest_min`, `finest_subgrid`, `finest_order_independent`
+4. outside / checks / signs: `interpolate_outside`, `interpolate_bad_method` (executed `Float`
+   definitions), `ntv2_2d_outside`, `ntv2_2d_type_error`, `ntv2_2d_bad_method`, `ntv2_2d_propagates`,
+   `ntv2_2d_value`, `shift_signs`, `shift_reverse_forward`
+5. `data_offset`, `data_offset_176`, `locate_none`
+6. `cellOf_bounds` (any arithmetic, so also the `Float` run), `row_col` (ℚ)
+7. node addressing: `seekRel_ok`, `seekRel_neg`, `readNode_ok`, `readNode_short`, `bilinear_nodes`,
+   `bicubic_nodes`, `index_range`, `stencil_inside_iff`, `cell_inside`, `bilinear_reads_in_subgrid`,
+   `bicubic_reads_in_subgrid`; the defect of the unchanged reader: `bicubic_ring_fails`,
+   `bicubic_ring_raises`
+8. fields in latitude/longitude over ℚ: `cellXY_spec`, `cellXY_unit`, `bilinear_linear_field`,
+   `bicubic_linear_field`
+
+Not here: `header_roundtrip` and `rounding_budget` of DESIGN §6 (both are statements about binary64
+decoding / `round`, which are opaque `Float` operations in Lean; they are covered by the
+correspondence harness and the probe only).
 -/
 namespace GeodeVerif.C17
 open Ntv2
@@ -920,5 +942,35 @@ theorem bicubic_linear_field (sg : SubGrid ℚ) (lat lon a bp bl : ℚ) (row col
   simp only [F, node]
   push_cast
   congr 1 <;> ring
+
+/-! ## Satisfiability of the hypotheses -/
+
+/-- a 3 × 4 sub-grid, 1° × 0.5° cells, with a point in its north-west cell -/
+def exampleSub : SubGrid ℚ :=
+  { subName := "A", parent := "NONE", created := "01/01/2020", updated := "01/01/2020",
+    sLat := -7200, nLat := 0, eLong := -540000, wLong := -534600, latInc := 3600, longInc := 1800,
+    gsCount := 12 }
+
+/-- hypotheses of `row_col` (and of `cellXY_unit`, `bilinear_linear_field`) -/
+example : (0 : ℚ) < exampleSub.latInc ∧ (0 : ℚ) < exampleSub.longInc ∧
+    exampleSub.nLat = exampleSub.sLat + (((3 : ℕ) : ℚ) - 1) * exampleSub.latInc ∧
+    exampleSub.wLong = exampleSub.eLong + (((4 : ℕ) : ℚ) - 1) * exampleSub.longInc ∧
+    (exampleSub.sLat ≤ -100 ∧ (-100 : ℚ) < exampleSub.nLat) ∧
+    (exampleSub.eLong ≤ -535000 ∧ (-535000 : ℚ) < exampleSub.wLong) := by
+  simp only [exampleSub]; norm_num
+
+/-- hypotheses of `finest_subgrid`: the point is in the sub-grid, increments are non-zero -/
+example : containing qops [exampleSub] (-100) (-535000) ≠ [] ∧ ∀ x ∈ [exampleSub], x.latInc ≠ 0 := by
+  constructor
+  · intro h
+    have : exampleSub ∈ containing qops [exampleSub] (-100) (-535000) :=
+      mem_containing.mpr ⟨by simp, by simp only [exampleSub]; norm_num⟩
+    rw [h] at this; simp at this
+  · intro x hx; simp only [List.mem_singleton] at hx; rw [hx]; simp [exampleSub]
+
+/-- hypotheses of `bicubic_reads_in_subgrid` / `bilinear_reads_in_subgrid`: the single interior
+cell of a 4 × 4 sub-grid, every cell of a 3 × 3 one -/
+example : stencilFits 4 4 1 1 = true := by decide
+example : (0 : Int) ≤ 1 ∧ (1 : Int) ≤ 3 - 2 := by decide
 
 end GeodeVerif.C17
